@@ -23,7 +23,36 @@ func parse(tokens []*token) (res *token, err error) {
 			res.Append(tok)
 		}
 	}
+	if deep := deeperThan(res, maxTreeDepth); deep != nil {
+		return nil, fmt.Errorf("%v: expression or else-if chain longer than %v links", deep.Pos, maxTreeDepth)
+	}
 	return res, nil
+}
+
+// maxTreeDepth bounds the depth of the parsed tree (operator and else-if chains are parsed by iteration but walked by
+// recursion in the compiler).
+const maxTreeDepth = 100000
+
+// deeperThan returns a token nested more than limit levels below root, if there is one (iterative walk).
+func deeperThan(root *token, limit int) *token {
+	type item struct {
+		t     *token
+		depth int
+	}
+	stack := []item{{root, 0}}
+	for len(stack) > 0 {
+		it := stack[len(stack)-1]
+		stack = stack[:len(stack)-1]
+		if it.depth > limit {
+			return it.t
+		}
+		for _, c := range it.t.Tokens {
+			if c != nil {
+				stack = append(stack, item{c, it.depth + 1})
+			}
+		}
+	}
+	return nil
 }
 
 type parser struct {
@@ -80,8 +109,15 @@ func (p *parser) Next() *token {
 	return p.Token
 }
 
+// maxParseDepth bounds the nesting of expressions and blocks, so that the recursive descent (and the passes that walk
+// the tree afterwards) cannot exhaust the host's stack on input like a million opening parentheses.
+const maxParseDepth = 10000
+
 func (p *parser) Expression(rbp int, mask ...string) *token {
 	p.Depth++
+	if p.Depth > maxParseDepth {
+		panicf("nesting deeper than %v levels", maxParseDepth)
+	}
 	tmp := p.mask
 	p.mask = mask
 	tok := p.doExpression(rbp)
